@@ -17,15 +17,16 @@
               user's text f:L/0 only in f.THIS
      added    f:L/0 versioned, not in the basis       unknown  f:L/0 unversioned, not in the basis
      missing  versioned, deleted on disk              rmkept   in the basis, unversioned by `rm --keep`, then edited: f:L/0
-   USER CONTENT is what the property protects: the f:L/0 of edit / added / unknown / rmkept / confl.  S-content and M
+     renedit  renamed to <f>r AND edited, both uncommitted: <f>r holds f:L/0, nothing at f
+   USER CONTENT is what the property protects: the f:L/0 of edit / renedit / added / unknown / rmkept / confl.  S-content and M
    were written by a merge.
 
    The tree directory (without the control directory) is a set of entries [p |-> path, t |-> content]. *)
 EXTENDS Naturals, Sequences, FiniteSets, TLC, SequencesExt
 
-Classes  == {"unch", "edit", "mergew", "added", "unknown", "confl", "missing", "rmkept"}
-InBasis  == {"unch", "edit", "mergew", "confl", "missing", "rmkept"}
-UserCls  == {"edit", "added", "unknown", "rmkept", "confl"}
+Classes  == {"unch", "edit", "mergew", "added", "unknown", "confl", "missing", "rmkept", "renedit"}
+InBasis  == {"unch", "edit", "mergew", "confl", "missing", "rmkept", "renedit"}
+UserCls  == {"edit", "added", "unknown", "rmkept", "confl", "renedit"}
 MergeOps == {"merge", "pull", "update", "switch"}
 
 Tag(f, ra, rb) == f \o ":" \o ra \o "/" \o rb
@@ -39,6 +40,8 @@ LI(f) == Tag(f, "L", "I")
 Helpers(f, base, this, other) == {E(f \o ".BASE", base), E(f \o ".THIS", this), E(f \o ".OTHER", other)}
 Keep == {E("d/k", "k")}
 UnderD(f) == f = "d/c"
+Cur(f, cl) == IF cl = "renedit" THEN f \o "r" ELSE f        \* where the tree has the file now
+Ren(f) == f \o "2"                                         \* where an incoming rename puts it
 
 BeforeF(f, cl) ==
     CASE cl = "unch"    -> {E(f, B0(f))}
@@ -46,6 +49,7 @@ BeforeF(f, cl) ==
       [] cl = "mergew"  -> {E(f, S0(f))}
       [] cl = "confl"   -> {E(f, "M")} \cup Helpers(f, B0(f), L0(f), S0(f))
       [] cl = "missing" -> {}
+      [] cl = "renedit" -> {E(Cur(f, cl), L0(f))}
       [] OTHER          -> {E(f, L0(f))}              \* added, unknown, rmkept
 FilesOf(c) == DOMAIN c.cls
 Before(c) == Keep \cup UNION {BeforeF(f, c.cls[f]) : f \in FilesOf(c)}
@@ -55,6 +59,8 @@ Selected(f, sel) == sel = "all" \/ sel = f \/ (sel = "d" /\ UnderD(f))
 RevertF(f, cl, fl, backups) ==
     CASE cl \in {"unch", "added", "unknown"} -> BeforeF(f, cl)           \* an added file is unversioned and kept
       [] cl = "edit"    -> {E(f, B0(f))} \cup (IF backups THEN {E(f \o ".~1~", L0(f))} ELSE {})
+      \* the basis text is found by following the rename; the backup is made next to the current name
+      [] cl = "renedit" -> {E(f, B0(f))} \cup (IF backups THEN {E(Cur(f, cl) \o ".~1~", L0(f))} ELSE {})
       \* merge-written content is not backed up where the tree records it (bzr); git trees have no such record
       [] cl = "mergew"  -> {E(f, B0(f))} \cup (IF backups /\ fl = "git" THEN {E(f \o ".~1~", S0(f))} ELSE {})
       \* the conflict is resolved; the SAFE outcome keeps the user's text unless --no-backup: bzr drops the helpers
@@ -73,13 +79,14 @@ RevertCmd(c) ==
 (* ---------------------------------------------------------------- remove(keep | force | default) *)
 \* one path: force deletes; default deletes what revert can bring back and backs up everything else
 RemoveF(f, cl, mode) ==
-    LET at == {e \in BeforeF(f, cl) : e.p = f}
+    LET at == {e \in BeforeF(f, cl) : e.p = Cur(f, cl)}
         rest == BeforeF(f, cl) \ at
-    IN IF mode = "force" \/ cl = "unch" THEN rest ELSE rest \cup {E(f \o ".~1~", e.t) : e \in at}
+    IN IF mode = "force" \/ cl = "unch" THEN rest ELSE rest \cup {E(Cur(f, cl) \o ".~1~", e.t) : e \in at}
 \* a directory: versioned children are handled one by one, then a directory that is still not empty is renamed as a
 \* whole (default) or removed recursively (force)
 DMoved(p) == CASE p = "d/c" -> "d.~1~/c" [] p = "d/c.~1~" -> "d.~1~/c.~1~" [] p = "d/c.BASE" -> "d.~1~/c.BASE"
                [] p = "d/c.THIS" -> "d.~1~/c.THIS" [] p = "d/c.OTHER" -> "d.~1~/c.OTHER"
+               [] p = "d/cr" -> "d.~1~/cr" [] p = "d/cr.~1~" -> "d.~1~/cr.~1~"
 RemoveDir(c) ==
     LET cl == c.cls["d/c"]
         outside == UNION {BeforeF(f, c.cls[f]) : f \in FilesOf(c) \ {"d/c"}}
@@ -94,30 +101,42 @@ RemoveCmd(c) ==
 
 (* ---------------------------------------------------------------- merge-like: merge, pull, update, switch
    inc: what the incoming revision does to every basis file: "same" (edits region A), "other" (edits region B),
-   "delete", "rename" (f -> f2); collide: it also ADDS every path that is locally added / unknown, with content f:I/0 *)
-Ren(f) == f \o "2"
+   "delete", "rename" (f -> f2), "rensame" / "renother" (renames f -> f2 AND edits region A / B: the file then has
+   different paths on the two sides of the text merge, as it has for a locally renamed file);
+   collide: it also ADDS every path that is locally added / unknown, with content f:I/0 *)
+RenIncs == {"rename", "rensame", "renother"}
+IncText(f, inc) == IF inc \in {"same", "rensame"} THEN I0(f) ELSE OI(f)
+\* a versioned local text (at path p = where the merged file ends up) against the incoming change
+MergeText(f, p, inc) ==
+    CASE inc \in {"same", "rensame"}   -> {E(p, "M")} \cup Helpers(p, B0(f), L0(f), I0(f))       \* text conflict
+      [] inc \in {"other", "renother"} -> {E(p, LI(f))}                                          \* clean merge
+      [] inc = "delete"                -> {E(p \o ".BASE", B0(f)), E(p \o ".THIS", L0(f))}        \* contents conflict
+      [] inc = "rename"                -> {E(p, L0(f))}
 MergeF(f, cl, fl, inc, collide) ==
     CASE cl = "unch" ->
-            (CASE inc = "same" -> {E(f, I0(f))} [] inc = "other" -> {E(f, OI(f))} [] inc = "delete" -> {}
-               [] inc = "rename" -> {E(Ren(f), B0(f))})
-      [] cl = "edit" ->
-            (CASE inc = "same"   -> {E(f, "M")} \cup Helpers(f, B0(f), L0(f), I0(f))          \* text conflict
-               [] inc = "other"  -> {E(f, LI(f))}                                              \* clean merge
-               [] inc = "delete" -> {E(f \o ".BASE", B0(f)), E(f \o ".THIS", L0(f))}           \* contents conflict
-               [] inc = "rename" -> {E(Ren(f), L0(f))})
+            (CASE inc = "delete" -> {} [] inc = "rename" -> {E(Ren(f), B0(f))}
+               [] OTHER -> {E(IF inc \in RenIncs THEN Ren(f) ELSE f, IncText(f, inc))})
+      \* the incoming rename wins over the local name
+      [] cl \in {"edit", "renedit"} -> MergeText(f, IF inc \in RenIncs THEN Ren(f) ELSE Cur(f, cl), inc)
       [] cl = "missing" ->
-            (CASE inc = "same" -> {E(f, I0(f))} [] inc = "other" -> {E(f, OI(f))} [] OTHER -> {})
+            (CASE inc \in {"same", "other"} -> {E(f, IncText(f, inc))}
+               [] inc \in {"rensame", "renother"} -> {E(Ren(f) \o ".BASE", B0(f)), E(Ren(f) \o ".OTHER", IncText(f, inc))}
+               [] OTHER -> {})
       [] cl = "rmkept" ->                                      \* contents conflict; the unversioned file stays
-            (CASE inc = "same"  -> {E(f, L0(f)), E(f \o ".BASE", B0(f)), E(f \o ".OTHER", I0(f))}
-               [] inc = "other" -> {E(f, L0(f)), E(f \o ".BASE", B0(f)), E(f \o ".OTHER", OI(f))}
-               [] OTHER -> {E(f, L0(f))})
+            (CASE inc \in {"delete", "rename"} -> {E(f, L0(f))}
+               [] OTHER -> LET p == IF inc \in RenIncs THEN Ren(f) ELSE f
+                           IN {E(f, L0(f)), E(p \o ".BASE", B0(f)), E(p \o ".OTHER", IncText(f, inc))})
       [] cl = "added" ->
             (IF ~collide THEN {E(f, L0(f))}
              ELSE IF fl = "git" THEN {E(f, "M"), E(f \o ".THIS", L0(f)), E(f \o ".OTHER", I0(f))}
              ELSE {E(f, I0(f)), E(f \o ".moved", L0(f))})
       [] cl = "unknown" ->
             (IF ~collide THEN {E(f, L0(f))} ELSE {E(f, I0(f)), E(f \o ".moved", L0(f))})
-MergeLike(c) == Keep \cup UNION {MergeF(f, c.cls[f], c.fl, c.inc, c.collide) : f \in FilesOf(c)}
+\* bzr trees: a file that is missing on disk and renamed + edited by the incoming revision makes the whole command
+\* fail (NoSuchFile) before anything is changed
+MergeFails(c) == c.fl = "bzr" /\ c.inc \in {"rensame", "renother"} /\ \E f \in FilesOf(c) : c.cls[f] = "missing"
+MergeLike(c) == IF MergeFails(c) THEN Before(c)
+                ELSE Keep \cup UNION {MergeF(f, c.cls[f], c.fl, c.inc, c.collide) : f \in FilesOf(c)}
 
 SpecAfter(c) == CASE c.op = "revert" -> RevertCmd(c) [] c.op = "remove" -> RemoveCmd(c) [] c.op \in MergeOps -> MergeLike(c)
                   [] c.op = "uncommit" -> Before(c)
@@ -134,7 +153,8 @@ Protected(c) == {f \in FilesOf(c) \ Discard(c) : c.cls[f] \in UserCls}
 \* (same path, .~N~ backup, .moved, .THIS, inside a backed-up directory)
 LostRR(c, A) == {f \in Protected(c) : L0(f) \notin Tags(A)}
 \* merge-like: the file holds the clean merge of local and incoming, or the local content is still somewhere
-CleanMerged(c, A, f) == c.cls[f] = "edit" /\ c.inc = "other" /\ E(f, LI(f)) \in A
+CleanMerged(c, A, f) == /\ c.cls[f] \in {"edit", "renedit"} /\ c.inc \in {"other", "renother"}
+                        /\ \E p \in {f, Cur(f, c.cls[f]), Ren(f)} : E(p, LI(f)) \in A
 LostM(c, A) == {f \in Protected(c) : ~CleanMerged(c, A, f) /\ L0(f) \notin Tags(A)}
 Lost(c, A) == IF c.op \in MergeOps THEN LostM(c, A) ELSE IF c.op \in {"revert", "remove"} THEN LostRR(c, A) ELSE {}
 LawRevert(c, A)   == c.op = "revert" => LostRR(c, A) = {}
